@@ -892,6 +892,7 @@ def run(res):
   corpus = []
   for f in sorted(os.listdir(cdir)) if os.path.isdir(cdir) else []:
     corpus.append((f, json.load(open(os.path.join(cdir, f)))))
+  corpus_crashes = []
   for name, c in corpus:
     # an entry that reproduces a finding is exercised once that finding is listed (before that it would only repeat
     # the proposal as a VIOLATION on every run)
@@ -906,8 +907,15 @@ def run(res):
         _, pyi = _io.generate_pyi(c["program"], _config.Options.create(python_version=PYVER))
       except Exception as e:  # pylint: disable=broad-except
         hist["corpus:pytype-crash:" + type(e).__name__] += 1
+        if type(e).__name__ != "UsageError":
+          # every corpus program is one for which the unchanged tree emits a stub: no stub at all is the property's
+          # first clause failing (the exception and the program are the replay)
+          corpus_crashes.append((name, "%s: %s" % (type(e).__name__, str(e)[:300]), c["program"]))
         continue
       check_stub_text(res, impl, ids, pyi, {"program": c["program"]}, hist, report, unknown_violation)
+  for name, what, prog in corpus_crashes[:2]:
+    res.violation("no-stub-emitted:corpus:" + name, "pytype emits no stub for corpus program %s: %s" % (name, what),
+                  {"program": prog})
 
   # ---------------- (1) types ----------------
   n_ty = 12000 if thorough else 1500
